@@ -148,6 +148,12 @@ Theorem C07_source_dial_path_writes_nothing : dial_path_writes_nothing = true.
 Proof. exact (eq_refl true). Qed.
 Print Assumptions C07_source_dial_path_writes_nothing.
 
+(* T1: DialWithContext reaches DialToSMTPClientWithContext without a return before it: every call dials a NEW connection
+   under the configuration in force at that call (what [dial_sequence] assumes) *)
+Theorem C07_source_dial_always_dials : Gen.dial_always_dials = true.
+Proof. exact (eq_refl true). Qed.
+Print Assumptions C07_source_dial_always_dials.
+
 (* memoryless: the outcome of the k-th dial of a sequence is a function of the k-th configuration and server only *)
 Theorem C07_autodiscover_memoryless : forall fuel l k cfg s,
   nth_error l k = Some (cfg, s) ->
